@@ -5,7 +5,7 @@
    UpdateMaxProbe never under-approximates, the growth policy does not shrink / probing reaches every bucket,
    CalcCapacity <= physical size); they are proved below for the kinds used by the extracted model. *)
 From Coq Require Import ZArith List Bool Permutation.
-From C11 Require Import GrowModel GenTie GenGrow GenFull GenFullP4 GenMove GenSame.
+From C11 Require Import GrowModel GenTie GenGrow GenFull GenFullP4 GenMove GenSame GenFacts GenFind.
 Import ListNotations.
 Local Open Scope Z_scope.
 
@@ -697,6 +697,82 @@ Theorem C11_gen_reloc_outer :
            rp mb mcap mm i cnt rmp = GenPrelude.Ok (None, (bc, cnt, rmp)).
 Proof. exact gen_reloc_outer. Qed.
 Print Assumptions C11_gen_reloc_outer.
+
+(* T-gen tie of the lookup's generation walk.  The `while (true)` loop of HashSet::pvFind(key) (one-table lookup, `if (found || areItemsNothrowRelocatable) break; buckets = buckets->GetNextBuckets(); if (buckets == nullptr) break;`) is regenerated from HashSet.h on every run (Gen_HashSetFind.v; table arrays are handles, the one-table pvFind and GetNextBuckets are parameters).  Run on a chain of model tables (generation j = handle j+1, nullptr = 0, the one-table lookup answering non-null exactly where the model's tfind finds the key) the GENERATED walk returns the iterator of the generation that the hand model's gfind answers with, and the null iterator exactly when gfind finds nothing -- including the shortcut that only the newest table is searched when items are nothrow-relocatable.  all_findable / history_refines_set therefore talk about the generated control flow.  (The update of indexCode through the reference parameter of the one-table pvFind is not modelled.) *)
+Theorem C11_gen_find_walk :
+  forall (B : Type) (b0 : B) (ub : Z -> B -> Z) (h : Z -> Z) (wf0 : bool) (start : Z -> Z -> Z) 
+           (next : Z -> Z -> Z -> Z) (nothrow : bool) (k : Z) (fi : Z -> Z) (rest : list (table B)) (g : nat) 
+           (ic pred it0 : Z) (extra total : nat),
+         (forall (j : nat) (t : table B),
+          nth_error rest j = Some t ->
+          (fi (Z.of_nat (g + j) + 1) =? 0) = match tfind B b0 ub h wf0 start next t k with
+                                             | Some _ => false
+                                             | None => true
+                                             end) ->
+         total = (g + length rest)%nat ->
+         rest <> [] ->
+         exists hd : Z,
+           Gen_HashSetFind.pvFind_key_loop0 nothrow (fun x : Z => x) (nxt total) (fun _ hdl _ : Z => fi hdl) 
+             (length rest + extra) ic pred it0 (Z.of_nat g + 1) =
+           GenPrelude.Ok
+             (match gfind B b0 ub h wf0 start next nothrow rest k g with
+              | Some (gi, _, _) => fi (Z.of_nat gi + 1)
+              | None => 0
+              end, hd).
+Proof. exact gen_find_walk. Qed.
+Print Assumptions C11_gen_find_walk.
+
+(* T-gen tie of pvFindBuckets' loop (generated: `for (bkts = mBuckets; bkts != nullptr; bkts = bkts->GetNextBuckets())`, `if (bucketIndex >= bkts->GetCount()) continue;`, the std::less address-range test on GetBounds of bucket bucketIndex): with item addresses owner * M + pos (disjoint storage per generation, M above every bucket length) it computes the hand model's find_buckets_loop (same generation or MOMO_ASSERT(false)). *)
+Theorem C11_gen_find_buckets_loop :
+  forall (B : Type) (b0 : B) (wf0 : bool) (bi M : Z) (gs0 rest : list (table B)) (g owner pos extra : nat) (bp : Z),
+         (forall (j : nat) (t : table B), nth_error rest j = Some t -> nth_error gs0 (g + j) = Some t) ->
+         length gs0 = (g + length rest)%nat ->
+         (forall t : table B, In t rest -> Z.of_nat (length (items B (getb B b0 wf0 t bi))) <= M) ->
+         Z.of_nat pos < M ->
+         Gen_HashSetFind.pvFindBuckets_loop0 bp (fun x _ : Z => x) (fun x : Z => x) (fun b _ : Z => b)
+           (fun x : Z =>
+            (x - 1) * M + Z.of_nat (length (items B (getb B b0 wf0 (nth (Z.to_nat (x - 1)) gs0 {| tlog := 0; tbs := [] |}) bi))))
+           (fun x : Z => bcount B (nth (Z.to_nat (x - 1)) gs0 {| tlog := 0; tbs := [] |})) (nxt (length gs0))
+           (fun x : Z => (x - 1) * M) (fun _ a b : Z => a <? b) (S (length rest) + extra) bi (Z.of_nat owner * M + Z.of_nat pos)
+           match rest with
+           | [] => 0
+           | _ :: _ => Z.of_nat g + 1
+           end =
+         GenPrelude.Ok
+           match find_buckets_loop B b0 wf0 rest bi owner pos g with
+           | Some gi => (Some (Z.of_nat gi + 1), Z.of_nat gi + 1)
+           | None => (None, 0)
+           end.
+Proof. exact gen_find_buckets_loop. Qed.
+Print Assumptions C11_gen_find_buckets_loop.
+
+(* ... and the whole generated pvFindBuckets (single-table shortcut, the loop with the translator's 70 units of fuel for chains shorter than 70 tables, final MOMO_ASSERT(false) = Stuck) = the hand model's find_buckets, on which C11_find_buckets_returns_owner / C11_removable / C11_remove_if_any_state rest. *)
+Theorem C11_gen_find_buckets_is_model :
+  forall (B : Type) (b0 : B) (wf0 : bool) (bi M : Z) (gs0 : list (table B)) (owner pos : nat) (bp c cp rmp : Z),
+         gs0 <> [] ->
+         (length gs0 < 70)%nat ->
+         (forall t : table B, In t gs0 -> Z.of_nat (length (items B (getb B b0 wf0 t bi))) <= M) ->
+         Z.of_nat pos < M ->
+         Gen_HashSetFind.pvFindBuckets bp (fun x _ : Z => x) (fun x : Z => x) (fun b _ : Z => b)
+           (fun x : Z =>
+            (x - 1) * M + Z.of_nat (length (items B (getb B b0 wf0 (nth (Z.to_nat (x - 1)) gs0 {| tlog := 0; tbs := [] |}) bi))))
+           (fun x : Z => bcount B (nth (Z.to_nat (x - 1)) gs0 {| tlog := 0; tbs := [] |})) (nxt (length gs0))
+           (fun x : Z => (x - 1) * M) (fun _ a b : Z => a <? b) c cp 1 rmp bi (Z.of_nat owner * M + Z.of_nat pos) =
+         match find_buckets B b0 wf0 gs0 bi owner pos with
+         | Some gi => GenPrelude.Ok (Z.of_nat gi + 1)
+         | None => GenPrelude.Stuck
+         end.
+Proof. exact gen_find_buckets_is_model. Qed.
+Print Assumptions C11_gen_find_buckets_is_model.
+
+(* AST facts (props/C11/astfacts.py, regenerated from the clang AST on every run; the statements as canonical strings in Gen_RelocFacts.v) for the parts of the migration that are not translated: pvRelocateItems() is `decl; try { pvRelocateItems(nextBuckets); mBuckets->ExtractNextBuckets(); } catch (...) { }` with an EMPTY handler and nothing after it (the failure is swallowed; the older chain is unlinked only on success); pvRelocateItems(Buckets ptr) first recurses into the next (older) table under `next != nullptr` and unlinks it only after that call returned, then runs the one loop that Gen_HashSetMove translates, then destroys the emptied table as its last statement, and contains no try of its own.  These are the structural facts GrowModel.reloc_gens / relocate are written for (oldest generation first; the first failure stops everything and leaves every table on the path linked). *)
+Theorem C11_reloc_structure_is_source :
+  swallows = true /\
+         unlink_on_success = true /\
+         oldest_first = true /\
+         destroy_last = true /\ no_inner_handler = true /\ loop_is_translated_one = true /\ worker_noexcept_iff_nothrow = true.
+Proof. exact reloc_structure_is_source. Qed.
+Print Assumptions C11_reloc_structure_is_source.
 
 (* same-code: BucketLimP4<.., 3, .., true> translated with maxCount symbolic gives literally the same Gallina as BucketLimP4<.., 4, .., true> for pvGetCount, IsFull, pvGetMemPoolIndex, WasFull, pvSetPtrState, pvSetEmpty, Clear, Remove (AddCrt differs per maxCount and is not claimed). *)
 Theorem C11_limp4_same_code_3_is_4 :
